@@ -13,7 +13,7 @@ import (
 
 type c10Case struct {
 	NIn    int   `json:"nin"`
-	Signed int   `json:"signed"` // 0 unsigned, 1 signed (107 bytes), 2 first only, 3 last only
+	Signed int   `json:"signed"` // 0 unsigned, 1 signed (107 bytes), 2 first only, 3 last only, 4 unsigned and read back from its extended serialisation (empty, non-nil unlocking scripts)
 	NOut   int   `json:"nout"`
 	Mix    int   `json:"mix"`  // 0 all P2PKH, 1 first is data (200 bytes), 2 alternate data/std, 3 first is the payload-less 00 6a, 4 first is the bare 6a
 	Dest   int   `json:"dest"` // see c10Dest
@@ -123,6 +123,13 @@ func c10Check(c c10Case) (fs []rep.Finding) {
 	}
 	ref.Ins[0].PrevSats = in.Uint64()
 	tx := toLib(ref)
+	if c.Signed == 4 {
+		back, err := bt.NewTxFromBytes(tx.ExtendedBytes())
+		if err != nil {
+			return nil
+		}
+		tx = back
+	}
 	before := tx.Bytes()
 	beforeExt := tx.ExtendedBytes()
 	fq := c.Q.lib()
@@ -242,7 +249,7 @@ var c10Quotes = []quote{
 
 func init() {
 	p := register(&Prop{ID: "C10", Level: "exploration",
-		Rule: "exhaustive product: inputs 1..3 P2PKH (unsigned / signed / first signed / last signed) x output counts {0,1,2,3,251,252,253,254} x output mix (all standard / first data / alternating data / first the payload-less `00 6a` / first the bare `6a` / last one of 8 near-data scripts: `6a 00`, `6a 01 42`, `00 6a` + push, `00`, `00 51 6a`, empty, OP_RETURN not first, 75-byte payload) x 11 change destinations (address, P2PKH script, 23-byte P2SH form, 35- and 67-byte P2PK, 1-, 100- and 300-byte scripts, existing output first/last/out of range) x 15 fee quotes (incl. >1 sat/byte, non-integral rates, unequal std/data rates and denominators) x 14 placements of the available amount relative to the big-integer reference thresholds (inputs<outputs, 0, fee-2..fee+3, fee+dust-1..fee+dust+2, just above the slack, ample). Oracle = the post-conditions of the statement computed with the reference fee model: earlier outputs and inputs untouched, outputs <= inputs, if changed: quoted fee(estimated final size) <= fee left <= quoted fee + ceil(9 bytes) + 9; if unchanged: remainder after the fee a change output needs <= dust (+ the same slack). distinct_nontrivial = distinct cases on which change returned without error",
+		Rule: "exhaustive product: inputs 1..3 P2PKH (unsigned / signed / first signed / last signed / unsigned and read back from its extended serialisation) x output counts {0,1,2,3,251,252,253,254} x output mix (all standard / first data / alternating data / first the payload-less `00 6a` / first the bare `6a` / last one of 8 near-data scripts: `6a 00`, `6a 01 42`, `00 6a` + push, `00`, `00 51 6a`, empty, OP_RETURN not first, 75-byte payload) x 11 change destinations (address, P2PKH script, 23-byte P2SH form, 35- and 67-byte P2PK, 1-, 100- and 300-byte scripts, existing output first/last/out of range) x 15 fee quotes (incl. >1 sat/byte, non-integral rates, unequal std/data rates and denominators) x 14 placements of the available amount relative to the big-integer reference thresholds (inputs<outputs, 0, fee-2..fee+3, fee+dust-1..fee+dust+2, just above the slack, ample). Oracle = the post-conditions of the statement computed with the reference fee model: earlier outputs and inputs untouched, outputs <= inputs, if changed: quoted fee(estimated final size) <= fee left <= quoted fee + ceil(9 bytes) + 9; if unchanged: remainder after the fee a change output needs <= dust (+ the same slack). distinct_nontrivial = distinct cases on which change returned without error",
 	})
 	sp := NewSpace(p, "change", c10Check)
 	p.Run = func(r *rep.Run, thorough bool) {
@@ -255,7 +262,7 @@ func init() {
 			return fs
 		}}).Each(r, func(yield func(c10Case)) {
 			for nin := 1; nin <= 3; nin++ {
-				for sg := 0; sg < 4; sg++ {
+				for sg := 0; sg < 5; sg++ {
 					if !thorough && nin == 3 && sg == 2 {
 						continue
 					}
